@@ -1121,7 +1121,8 @@ def describe_crash(run, rel, v):
     return vp.Violation(what, replay={"kind": "trace", "mode": "crash", "pat": h.get("pat"), "first_unexplained": v.record,
                                       "position_in_run": rel, "invariant": v.invariant, "history_before": fault_history(run),
                                       "run": run, "reset": h},
-                        signature=f"crash:{h.get('op')}:{where}:{man}")
+                        # (the victim's creating call is create() or open_or_create(): the same creation path)
+                        signature=f"crash:create:{where}:{man}")
 
 
 def part_crash(ctx):
